@@ -80,7 +80,8 @@ fn jobs_base() -> Vec<(Op, Vec<Vec<f64>>)> {
         }
         v.push((op, g));
     }
-    for op in [Op::Sqrt, Op::Ln, Op::Log(0.5), Op::Log(2.5), Op::Log(10.0), Op::Log2, Op::Log10] {
+    // bases 2, 10 and e are the ones an implementation may special-case
+    for op in [Op::Sqrt, Op::Ln, Op::Log(0.5), Op::Log(2.5), Op::Log(10.0), Op::Log(2.0), Op::Log(std::f64::consts::E), Op::Log2, Op::Log10] {
         v.push((op, un(POS)));
     }
     let mut g = un(GTM1);
